@@ -26,6 +26,10 @@ CLAIMS = {
  "C14": ("Postconditions of updateStatefulSet under the Parallel policy: every vacant desired ordinal was created at and every non-terminating condemned snapshot pod was deleted on error-free exits; at most one update delete.", RECON_NOTE, "6 C14"),
  "C16": ("Postconditions of addPod, updatePod, deletePod (incl. tombstones), enqueueStatefulSet, resolveControllerRef, getStatefulSetsForPod over a ghost model of the work queue and an abstract lister content: a pod whose controller reference resolves (kind, name, UID) enqueues exactly that set; on an owner change the old and the new owner are both enqueued; an orphan enqueues every set of its namespace whose selector matches (completeness proved through the lister expansion GetPodStatefulSets, whose loop is under contract); equal resource versions enqueue nothing; nothing else is enqueued. processNextWorkItem: failure -> AddRateLimited and no Forget, success -> Forget, Done always.",
          "Assumed: informer payload types, key function, listers do not fail, selector predicates uninterpreted, reflect.DeepEqual on owner references. The set-informer handler literals (wiring in NewStatefulSetController) are not under contract; they call enqueueStatefulSet, which is.", "6 C16"),
+ "C17": ("Upgrade is verified against a protocol written as caller-specific preconditions of the API calls it makes, over ghost state (which revisions have been relabelled, whether the Advanced StatefulSet object and its status have been written, whether any call failed): every revision update carries the marker label with the set's name and none of the selector's keys (inner-loop invariant over the visited keys); the create/update of the Advanced StatefulSet requires every listed revision relabelled, the built-in's name and the converted spec, and an empty resource version on create; UpdateStatus requires the object written and the converted status; the built-in delete requires both written, every listed revision relabelled and propagation policy Orphan. Postconditions: any failed call makes Upgrade return an error (fail-stop is then structural: every error path returns), success implies object and status written.",
+         "Assumed: the client contracts themselves, FromBuiltinStatefulSet (JSON round trip, see C19), label maps present on listed revisions. 'Never touches pods or claims' holds by construction of the check: no pod/claim client call has a contract in this package, so adding one cannot be translated and is reported.", "6 C17"),
+ "C20": ("Sequential relay contract of hijackWatch.receive: each channel operation is a call of an assumed contract over ghost state (events in, events out, the event received last); the send's preconditions state that exactly the event just received is handed on, with the same type and either the built-in conversion of the received StatefulSet or - for any other payload such as an error status - the very same object; the receive's precondition states that nothing is pending. By the loop invariant (out == in) this gives the same events, in order, once each. No panic for an arbitrary payload (safety obligations on the type assertion path; this failed on the pinned tree = F8, fixed). On exit: result channel closed exactly once, source stopped exactly once, Stop idempotent.",
+         "PARTIAL by nature of the family: 'for every interleaving of event arrival, consumption and Stop' and 'no goroutine is left behind' are statements about schedules of several goroutines and a blocking send; contracts over one sequential procedure cannot express them, and they are NOT decided (by reading, the relay can block forever on its send if the consumer stops reading after Stop(); not reported by any check). Assumed: the channel contracts, ToBuiltinStatefulSet never failing (C19).", "6 C20"),
  "C15": ("Zero-annotation safety sweep: every dereference, index, slice expression, map write, type assertion, make length, conversion and int32 arithmetic in the functions under contract yields an obligation, proved under the weak 'crd' profile (only what the CRD schema guarantees; strategy/policy strings and the partition arbitrary, pod populations arbitrary including ordinal MaxInt32).",
          "Currently covers updateStatefulSet and the pod predicates; callees with assumed contracts (ApplyRevision, newVersionedStatefulSetPod, library code) are assumed panic-free. " + RECON_NOTE, "6 C15"),
 }
